@@ -170,4 +170,41 @@ PROPS = {
         'design_ref': '5 / C09',
         'coverage_extra': {'exhaustive_subspace': 'macro-chain depth 1..80 and include-chain levels 1..80 enumerated completely'},
     },
+    'C10': {
+        'title': '`include',
+        'rule': 'one case = one of four sub-workloads in real directory trees under the worker temp dir: (a) search rule: the same file name present in any subset of {cwd, 3 include dirs} with distinct payloads, random include-path order/subset, three naming styles, absolute paths, sub-directories, worker chdir()s into the tree; '
+                '(b) random include graphs (<= 5 files, nested, same file twice, macro-named) with defines flowing in and out, compared with the G-PP reference semantics; (c) same-line rule with 13 kinds of neighbour before/after; (d) ignore_include with non-existent targets; distinct by hash of sources + placement',
+        'evaluations_key': 'cases',
+        'floors': {'quick': {'search_rule_cases': 6000, 'search_rule_agree': 6000, 'missing_file_errors': 1000, 'include_graph_cases': 8000, 'includes': 15000, 'agree_with_reference': 7000,
+                             'same_line_cases': 4000, 'include_line_errors': 1200, 'ignore_include_cases': 2000},
+                   'thorough': {'search_rule_cases': 150000, 'include_graph_cases': 200000}},
+        'technique': 'runtime monitor with executable reference: unique payload per file copy identifies which file was spliced; reference semantics over include graphs; constructed same-line and ignore_include cases with expectation by construction; real files, real chdir',
+        'level_text': 'Real directory trees are built per case and the real preprocessor is run from inside them; which copy was spliced is read off unique payload tokens and compared with the search rule, define flow is compared with the reference semantics, and the same-line / ignore_include rules with expectations known by construction.',
+        'level_note': 'Search-rule cases chdir() the worker process (cases of one worker run one at a time).',
+        'design_ref': '5 / C10',
+    },
+    'C11': {
+        'title': 'define table exactness and cross-file threading',
+        'rule': 'one case = (a) a G-PP program whose returned table (names, formals, defaults, body text, caller-supplied entries, `undefineall) is compared entry by entry with the reference table, or '
+                '(b) 2-3 generated units, each ending in `;` + newline outside conditionals, preprocessed one after the other with the table fed forward, against one run over the concatenation (byte-equal text, equal final table without source positions, equal error); '
+                'non-trivial = comparison completed with a non-empty table; distinct by hash of sources',
+        'evaluations_key': 'cases',
+        'floors': {'quick': {'threading_cases': 60000, 'both_ok': 50000, 'table_entries_compared': 60000, 'table_exactness_cases': 30000, 'both_error': 3000},
+                   'thorough': {'threading_cases': 1500000}},
+        'technique': 'runtime monitor: reference table from the G-PP semantics; metamorphic comparison of sequential-with-threaded-table execution against single-unit execution of the concatenation',
+        'level_text': 'The table returned by the real preprocessor is compared with the table the reference semantics computes on the abstract program, and feeding it into a second (and third) run is compared byte for byte with preprocessing the concatenation.',
+        'level_note': 'Generator constraints exclude the cases where single-unit and multi-unit processing legitimately differ (`__LINE__ in later units, SV_COV names, open `begin_keywords); listed in DESIGN C11.',
+        'design_ref': '5 / C11',
+    },
+    'C20': {
+        'title': 'entry points agree',
+        'rule': 'one case = one file written to the worker directory (tree workload, include + comment + macro-from-include, G-PP program, rejected program, file faults, library map, junk suffix) run through all members of the parse family for the 4 (ignore_include, allow_incomplete) values and through preprocess / preprocess_str for the 4 (strip_comments, ignore_include) values: 16 comparisons of canonical results per case; distinct by hash of (contents, kind)',
+        'evaluations_key': 'comparisons',
+        'floors': {'quick': {'inputs': 11000, 'comparisons': 170000, 'accepted_configs': 10000, 'flag_sensitive_inputs': 1500, 'kind:file-fault': 800, 'kind:lib': 800},
+                   'thorough': {'inputs': 280000}},
+        'technique': 'runtime monitor: differential execution of the entry points that the property says must agree, on the same file with the same flags, comparing exact tree skeleton + origins + define table (with origins) or the error Debug',
+        'level_text': 'Each generated file is pushed through every member of the entry-point family under every flag combination and the canonical results are compared; inputs are chosen so that swapped or dropped flags change at least one result.',
+        'level_note': 'Equality of trees is by exact skeleton hash (node kinds + Locate of every node), per-leaf origin hash and define table with origins.',
+        'design_ref': '5 / C20',
+    },
 }
